@@ -920,6 +920,15 @@ class Mesh2DTopology:
         connectivity. The standard name for this dimension is 'Two'.
         """
         two = 'Two'
+        # The edge connectivity variables know what this dimension is called.
+        # It is the dimension of size two that is not the edge dimension.
+        for key in ['edge_node_connectivity', 'edge_face_connectivity']:
+            variable_name = self.mesh_attributes.get(key)
+            if variable_name not in self.dataset.variables:
+                continue
+            for name in self.dataset.variables[variable_name].dims:
+                if name != self.edge_dimension and self.dataset.sizes[name] == 2:
+                    return name
         # Check for the standard name
         if two in self.dataset.sizes and self.dataset.sizes[two] == 2:
             return two
